@@ -89,6 +89,7 @@ type Info struct {
 	Race        bool     // run the worker built with -race
 	CaseTimeout int      // seconds per case before the watchdog fires (0 = default)
 	MaxWorkers  int      // 0 = all cores
+	MaxRSSMB    int      // per-worker resident-set bound in MiB (0 = 4096)
 	// Floors: observation set/counter names that must reach a minimum, else the run is
 	// inconclusive (monitors did not observe enough).
 	SetFloors   map[string]int
